@@ -35,7 +35,7 @@ type universe struct {
 	verifyBl   [3][]byte
 	indexKeys  [4]*big.Int
 	refIndex   [3][4][]byte
-	anon       [3][]byte
+	anon       [4][]byte // the last one is the EMPTY anonymous origin ID
 }
 
 var (
@@ -70,9 +70,10 @@ func theUniverse() *universe {
 				u.refIndex[c][o] = ref.AnonymousIssuerOriginID(u.clientKeys[c], u.indexKeys[o])
 			}
 		}
-		for a := range u.anon {
+		for a := 0; a < 3; a++ {
 			u.anon[a] = bytes.Repeat([]byte{byte(0xA0 + a)}, 32)
 		}
+		u.anon[3] = []byte{}
 		uni = u
 	})
 	return uni
@@ -80,14 +81,18 @@ func theUniverse() *universe {
 
 // step is one letter of a history.
 type step struct {
-	verify bool
-	client int
-	origin int
-	anon   int
-	blind  []byte
+	verify        bool
+	failingVerify bool // a VerifyRequest that must be refused: another client's request presented under this client's key
+	client        int
+	origin        int
+	anon          int
+	blind         []byte
 }
 
 func (s step) String() string {
+	if s.failingVerify {
+		return fmt.Sprintf("verify-mismatch(c%d)", s.client)
+	}
 	if s.verify {
 		return fmt.Sprintf("verify(c%d)", s.client)
 	}
@@ -114,6 +119,14 @@ func runHistory(h []step) (violation string, sig string, interesting bool) {
 		return id, err
 	}
 	for i, st := range h {
+		if st.failingVerify {
+			// a correctly signed request of ANOTHER client presented under this client's key: must be refused and must not register the client
+			other := (st.client + 1) % 3
+			if err := att.VerifyRequest(*u.states[other].Request(), u.verifyBl[other], u.clientKeys[st.client], u.anon[0]); err == nil {
+				return fmt.Sprintf("step %d %v: VerifyRequest accepted client c%d's request under client c%d's key", i, st, other, st.client), "C09/verify-mismatch-accepted", false
+			}
+			continue
+		}
 		if st.verify {
 			if st.client == 2 {
 				continue // client 2 is never verified
@@ -159,7 +172,7 @@ func runHistory(h []step) (violation string, sig string, interesting bool) {
 		if _, err := finalize(a.c, a.o, a.a, bytes.Repeat([]byte{0x77}, 40)); err != nil {
 			return fmt.Sprintf("after the history, the accepted pair (c%d,o%d,a%d) is rejected: %v", a.c, a.o, a.a, err), "C09/binding-lost", false
 		}
-		other := (a.a + 1) % 3
+		other := (a.a + 1) % 4
 		if bound[a.c][hex.EncodeToString(u.refIndex[a.c][a.o])] != other {
 			if _, err := finalize(a.c, a.o, other, bytes.Repeat([]byte{0x78}, 40)); err == nil {
 				return fmt.Sprintf("after the history, a second anonymous origin ID a%d is accepted for (c%d,o%d) already bound to a%d", other, a.c, a.o, a.a), "C09/two-anon-ids", false
@@ -178,7 +191,7 @@ func histString(h []step) string {
 }
 
 func TestHistories(t *testing.T) {
-	s := rt.S("histories").SetRule("rapid state machine over {verify(client), finalize(client, origin, anonymous origin ID) with a fresh drawn blind} on 3 clients (one never verified), 4 origins (two share an index key), 3 anonymous origin IDs, up to 30 steps; model: registered[client], bound[client][index]; invariant after every step: decision == (registered and (index unbound or bound to this ID)), returned ID == reference HKDF value; at the end every accepted pair is replayed (still accepted) and a second ID for a bound index is refused. non-trivial = history containing a rejection followed by a later accept, or a collision between origins sharing an index key; distinct by history")
+	s := rt.S("histories").SetRule("rapid state machine over {verify(client), finalize(client, origin, anonymous origin ID) with a fresh drawn blind} on 3 clients (one never verified), 4 origins (two share an index key), 4 anonymous origin IDs (one of them empty), failing verifications (another client's request under this client's key), up to 30 steps; model: registered[client], bound[client][index]; invariant after every step: decision == (registered and (index unbound or bound to this ID)), returned ID == reference HKDF value; at the end every accepted pair is replayed (still accepted) and a second ID for a bound index is refused. non-trivial = history containing a rejection followed by a later accept, or a collision between origins sharing an index key; distinct by history")
 	rt.Check(t, 150, 20000, func(t *rapid.T) {
 		var h []step
 		t.Repeat(map[string]func(*rapid.T){
@@ -186,7 +199,10 @@ func TestHistories(t *testing.T) {
 				h = append(h, step{verify: true, client: gen.Uniform(t, 3, "client")})
 			},
 			"finalize": func(t *rapid.T) {
-				h = append(h, step{client: gen.Uniform(t, 3, "client"), origin: gen.Uniform(t, 4, "origin"), anon: gen.Uniform(t, 3, "anon"), blind: gen.P384KeyBytes().Draw(t, "blind")})
+				h = append(h, step{client: gen.Uniform(t, 3, "client"), origin: gen.Uniform(t, 4, "origin"), anon: gen.Uniform(t, 4, "anon"), blind: gen.P384KeyBytes().Draw(t, "blind")})
+			},
+			"verifyMismatch": func(t *rapid.T) {
+				h = append(h, step{failingVerify: true, client: gen.Uniform(t, 3, "client")})
 			},
 			"": func(t *rapid.T) {
 				// the invariant is evaluated on the whole history so far (fresh attester): prefix-closed by construction
@@ -209,7 +225,7 @@ func TestHistories(t *testing.T) {
 
 // TestAllShortHistories: bounded-exhaustive enumeration of every history up to a length over a 10-letter alphabet.
 func TestAllShortHistories(t *testing.T) {
-	s := rt.S("all-short-histories").SetRule("EVERY history of length <= 3 (quick) / <= 4 (thorough) over the 10-letter alphabet {verify(c0), verify(c1), finalize(c0,o0,a0), finalize(c0,o0,a1), finalize(c0,o3,a0), finalize(c0,o3,a1), finalize(c0,o1,a0), finalize(c1,o0,a0), finalize(c1,o0,a1), finalize(c2,o0,a0)} with fixed blinds; same model and invariants; non-trivial = every history of length >= 2; distinct by construction")
+	s := rt.S("all-short-histories").SetRule("EVERY history of length <= 3 (quick) / <= 4 (thorough) over the 13-letter alphabet {verify-mismatch(c2), verify-mismatch(c0), finalize(c0,o0,empty anon ID), verify(c0), verify(c1), finalize(c0,o0,a0), finalize(c0,o0,a1), finalize(c0,o3,a0), finalize(c0,o3,a1), finalize(c0,o1,a0), finalize(c1,o0,a0), finalize(c1,o0,a1), finalize(c2,o0,a0)} with fixed blinds; same model and invariants; non-trivial = every history of length >= 2; distinct by construction")
 	bl := bytes.Repeat([]byte{0x42}, 33)
 	alphabet := []step{
 		{verify: true, client: 0}, {verify: true, client: 1},
@@ -218,6 +234,9 @@ func TestAllShortHistories(t *testing.T) {
 		{client: 0, origin: 1, anon: 0, blind: bl},
 		{client: 1, origin: 0, anon: 0, blind: bl}, {client: 1, origin: 0, anon: 1, blind: bl},
 		{client: 2, origin: 0, anon: 0, blind: bl},
+		{client: 0, origin: 0, anon: 3, blind: bl}, // the empty anonymous origin ID
+		{failingVerify: true, client: 2},
+		{failingVerify: true, client: 0},
 	}
 	maxLen := 3
 	if rt.Thorough() {
@@ -249,6 +268,6 @@ func TestAllShortHistories(t *testing.T) {
 	rec(nil)
 	s.EvalN(cnt)
 	s.NontrivialEnum(nontrivial)
-	s.MarkExhaustive(fmt.Sprintf("all histories of length <= %d over a 10-letter alphabet", maxLen))
+	s.MarkExhaustive(fmt.Sprintf("all histories of length <= %d over a 13-letter alphabet", maxLen))
 	s.Sample(func() any { return histString([]step{alphabet[0], alphabet[2], alphabet[5], alphabet[4]}) })
 }
